@@ -659,6 +659,17 @@ func constStrings(v ssa.Value, depth int) ([]string, bool) {
 		if x.Value != nil && x.Value.Kind() == constant.String {
 			return []string{constant.StringVal(x.Value)}, true
 		}
+	case *ssa.Extract:
+		if lk, ok := x.Tuple.(*ssa.Lookup); ok && x.Index == 0 {
+			return constStrings(lk, depth+1)
+		}
+	case *ssa.Lookup:
+		// an entry of a package-level table of constants (a map literal nothing ever updates)
+		if ld, ok := x.X.(*ssa.UnOp); ok && ld.Op == token.MUL {
+			if g, ok := ld.X.(*ssa.Global); ok && constStringsProg != nil {
+				return constMapValues(constStringsProg, g)
+			}
+		}
 	case *ssa.Phi:
 		var out []string
 		for _, e := range x.Edges {
@@ -1552,4 +1563,63 @@ func panicOnConstTemplate(p *core.Program, pn *ssa.Panic) (int, bool) {
 		}
 	}
 	return len(texts), true
+}
+
+// constMapValues: the string values of a package-level map that is given a literal of constant keys and values in
+// its package initialiser and is never updated, reassigned or handed to code that could (C05-R4 decides the latter).
+func constMapValues(p *core.Program, g *ssa.Global) ([]string, bool) {
+	if g.Pkg == nil {
+		return nil, false
+	}
+	init := g.Pkg.Func("init")
+	if init == nil {
+		return nil, false
+	}
+	var mk *ssa.MakeMap
+	for _, b := range init.Blocks {
+		for _, in := range b.Instrs {
+			if st, ok := in.(*ssa.Store); ok && st.Addr == ssa.Value(g) {
+				m, isMk := st.Val.(*ssa.MakeMap)
+				if !isMk || mk != nil {
+					return nil, false
+				}
+				mk = m
+			}
+		}
+	}
+	if mk == nil {
+		return nil, false
+	}
+	var out []string
+	for _, r := range *mk.Referrers() {
+		switch t := r.(type) {
+		case *ssa.MapUpdate:
+			vals, ok := constStrings(t.Value, 3)
+			if !ok {
+				return nil, false
+			}
+			out = append(out, vals...)
+		case *ssa.Store, *ssa.DebugRef:
+		default:
+			return nil, false
+		}
+	}
+	// nothing else writes it
+	for _, fn := range p.Funcs {
+		for _, b := range fn.Blocks {
+			for _, in := range b.Instrs {
+				switch t := in.(type) {
+				case *ssa.Store:
+					if t.Addr == ssa.Value(g) {
+						return nil, false
+					}
+				case *ssa.MapUpdate:
+					if ld, ok := t.Map.(*ssa.UnOp); ok && ld.X == ssa.Value(g) {
+						return nil, false
+					}
+				}
+			}
+		}
+	}
+	return out, len(out) > 0
 }
